@@ -5,19 +5,25 @@ EXTENDS Validator, Json
 \* history variables that do not influence the future are hidden from the
 \* fingerprint: two behaviours that differ only there are the same scenario
 View == <<scn, budget, advlog, pc, pend, inbox, msg, gi, gst, walk, node, tkeys, dsd,
-          ttl0, probes, entp, run, hist, result>>
+          ttl0, probes, entp, late, shortz, run, hist, result>>
 
 \* deviations: what the code does today, per scenario (DESIGN 2.6)
 HasAct(S) == \E i \in 1..Len(advlog) : advlog[i].act \in S
 DevOf(d) ==
   CASE d = "D_nsec3_label_expect" -> [panic |-> TRUE]
     [] d = "D_ttl0_node_panic" -> [panic |-> TRUE]
+    [] d = "D_sigcache_ignores_time" -> [panic |-> TRUE]
     [] d = "D_extra_rrset_ignored" -> [state |-> AnswerO(NoInj(msg))]
 DevSet ==
   (IF HasAct({"BadNsec3Label", "BadNsec3LabelSigned"}) THEN {"D_nsec3_label_expect"} ELSE {}) \cup
   (IF \E i \in 1..Len(advlog) : advlog[i].act = "ZeroTtl" /\ advlog[i].t # "ANS"
    THEN {"D_ttl0_node_panic"} ELSE {}) \cup
-  (IF Has(msg, "inj") THEN {"D_extra_rrset_ignored"} ELSE {})
+  (IF Has(msg, "inj") THEN {"D_extra_rrset_ignored"} ELSE {}) \cup
+  \* a short-lived signature that was accepted (and cached as good) before time
+  \* passed is served again, now expired
+  (IF late /\ \E i \in 1..Len(hist), j \in 1..Len(advlog) :
+                 advlog[j].act = "ShortSig" /\ \E k \in 1..Len(hist[i].adv) : hist[i].adv[k] = advlog[j]
+   THEN {"D_sigcache_ignores_time"} ELSE {})
 
 SetToSeq(S) == CHOOSE f \in [1..Cardinality(S) -> S] : \A i, j \in DOMAIN f : i # j => f[i] # f[j]
 \* the admitted set, the machine's own verdict first
@@ -27,6 +33,8 @@ Emit ==
   Finished /\ run = MaxRuns => PrintT("CASE " \o ToJson(
      [in  |-> [shape |-> scn.shape, denial |-> scn.denial, qk |-> scn.qk,
                adv |-> advlog, runs |-> [i \in 1..Len(hist) |-> hist[i].adv] \o <<advlog>>,
+               tps |-> <<FALSE>> \o [i \in 1..Len(hist) |-> hist[i].tp],
+               rss |-> <<FALSE>> \o [i \in 1..Len(hist) |-> hist[i].rs],
                allow |-> AllowSeq, oracle |-> Oracle,
                fetches |-> fetches],
       exp |-> [state |-> result],
